@@ -80,8 +80,22 @@ def py_check(res):
         for fn in c.body:
             if not isinstance(fn, ast.FunctionDef):
                 continue
+            # locals with one definition are read through (`values = self._values`,
+            # `old_value = self._values[index]`)
+            defs = {}
+            for a in ast.walk(fn):
+                if isinstance(a, ast.Assign) and len(a.targets) == 1 and isinstance(a.targets[0], ast.Name):
+                    defs.setdefault(a.targets[0].id, []).append(a.value)
+            params = set(x.arg for x in fn.args.args)
+
+            def resolved(e, depth=0):
+                if isinstance(e, ast.Name) and e.id not in params and len(defs.get(e.id, ())) == 1 and depth < 4:
+                    return resolved(defs[e.id][0], depth + 1)
+                if isinstance(e, ast.Subscript):
+                    return "%s[%s]" % (resolved(e.value, depth), pyfront.unparse(e.slice))
+                return pyfront.unparse(e)
             writes = any(isinstance(a, ast.Assign) and any(
-                isinstance(t, ast.Subscript) and pyfront.unparse(t.value) == "self._values" for t in a.targets)
+                isinstance(t, ast.Subscript) and resolved(t.value) == "self._values" for t in a.targets)
                 for a in ast.walk(fn))
             if not writes:
                 continue
@@ -89,7 +103,7 @@ def py_check(res):
                 if not (isinstance(cmp_, ast.Compare) and len(cmp_.ops) == 1 and
                         isinstance(cmp_.ops[0], (ast.Eq, ast.NotEq, ast.Is, ast.IsNot))):
                     continue
-                sides = [pyfront.unparse(cmp_.left), pyfront.unparse(cmp_.comparators[0])]
+                sides = [resolved(cmp_.left), resolved(cmp_.comparators[0])]
                 if not any(s.startswith("self._values[") for s in sides):
                     continue
                 n += 1
